@@ -204,6 +204,42 @@ example :
     14 Toy.m1 Toy.w1 CToy.goodL_ord CToy.goodL_cont CToy.hwalL Toy.hseq
   ⟨h.1, h.2 CToy.goodL_phase, CToy.oldL_ne_newL⟩
 
+/-- T4.9b **… started in a state with pending effects**.  An operation does not start on a flushed disk: every sync
+leaves the truncation of its WAL un-synced (`bitbox` calls `truncate_wal(.., false)`; the monitor reports
+`left_volatile=1`).  `s0` is the concurrent state the operation starts in: `s0.dur` is the durable disk — the OLD state —
+and the pending effects `s0.volEffs` satisfy `AllowedPreL'` (WAL truncations do).  Same conclusion as T4.9, for every
+image of every prefix of the concurrent execution from `s0`; the pending effects are covered by the discipline like the
+operation's own (nothing may be volatile when the meta write begins). -/
+theorem T4_9b_concurrent_powerloss_atomic_pending_effects (L : LogParams MetaRec LogRec)
+    (s0 : CState Content MetaRec WalRec LogRec)
+    (hvol0 : ∀ e ∈ s0.volEffs, AllowedPreL' P L s0.dur e)
+    (hinert : ∀ b, htView P s0.dur b = s0.dur.pages File.fHt b)
+    (cpre crest : List (CEv Content MetaRec WalRec LogRec)) (id : Nat) (m1 : MetaRec) (w1 : WalRec)
+    (hord : cAll ordChk 0 s0 (cpre ++ CEv.effBegin id (.setMeta m1) :: crest))
+    (hcont : cAll (contChk (AllowedPreL' P L s0.dur) (contPostL P L (crun s0 cpre).dur m1 w1)) 0 s0
+      (cpre ++ CEv.effBegin id (.setMeta m1) :: crest))
+    (hwal : (crun s0 cpre).dur.wal = some w1)
+    (hseq : P.walSeqn w1 = P.seqn m1) :
+    (∀ cp, cp <+: cpre ++ CEv.effBegin id (.setMeta m1) :: crest →
+       ∀ img, IsCImage (crun s0 cp) img →
+         absOfL P L img = absOfL P L s0.dur ∨
+         absOfL P L img = (absNew P (crun s0 cpre).dur m1 w1, absLog L m1 (crun s0 cpre).dur.log)) ∧
+    (phRun 0 s0 (cpre ++ CEv.effBegin id (.setMeta m1) :: crest) = 2 →
+       ∀ img, IsCImage (crun s0 (cpre ++ CEv.effBegin id (.setMeta m1) :: crest)) img →
+         absOfL P L img = (absNew P (crun s0 cpre).dur m1 w1, absLog L m1 (crun s0 cpre).dur.log)) :=
+  conc_sync_crash_atomic_log_from P L s0 hvol0 hinert cpre crest id m1 w1 hord hcont hwal hseq
+
+/-- non-vacuity of T4.9b: `CToy.goodL` started in `CToy.s0P` — the previous (applied) WAL is still on disk, its
+truncation (effect 100) is pending; the fsync of `wal` by `t12` covers it together with the new WAL. -/
+example :
+    (∀ cp, cp <+: CToy.goodL → ∀ img, IsCImage (crun CToy.s0P cp) img →
+       absOfL Toy.P Toy.L img = absOfL Toy.P Toy.L CToy.s0P.dur ∨ absOfL Toy.P Toy.L img = CToy.newAbsP) ∧
+    (∀ img, IsCImage (crun CToy.s0P CToy.goodL) img → absOfL Toy.P Toy.L img = CToy.newAbsP) ∧
+    absOfL Toy.P Toy.L CToy.s0P.dur ≠ CToy.newAbsP :=
+  have h := T4_9b_concurrent_powerloss_atomic_pending_effects Toy.P Toy.L CToy.s0P CToy.hvol0P CToy.hinertP CToy.cpreL
+    CToy.crestL 14 Toy.m1 Toy.w1 CToy.goodP_ord CToy.goodP_cont CToy.hwalP Toy.hseq
+  ⟨h.1, h.2 CToy.goodP_phase, CToy.oldP_ne_newP⟩
+
 /-! ## The monitor on the real trace -/
 
 /-- T4.7 **acceptance by the order monitor ⇒ the order discipline**.  If `checkOrder` (run by the driver on the real
@@ -240,6 +276,28 @@ theorem T4_7b_monitor_implies_hflushed (C : Contents Content MetaRec WalRec)
   refine ⟨hv, ?_, ?_⟩
   · rw [run_lin]; simp [CState.toExec, CState.volEffs, hv]
   · rw [run_lin]; rfl
+
+/-- T4.7c **… started with pending effects**: the driver runs `checkOrder` on every operation's trace from the empty
+monitor state; an operation really starts with what the previous one left volatile.  The simulation holds from any such
+start: if the monitor's scan started with the pending list `pend0` (ids below `nid`, distinct) accepts the trace, the
+abstracted concurrent trace passes the order discipline from the concurrent state in which the abstraction of `pend0` is
+volatile (hypothesis `hord` of T4.9b). -/
+theorem T4_7c_monitor_implies_order_discipline_pending_effects (C : Contents Content MetaRec WalRec)
+    (pend0 : List Pend) (nid : Nat) (hlt : ∀ p ∈ pend0, p.id < nid) (hnd : (pend0.map (·.id)).Nodup)
+    (tr : List IoEv2) (st : OrderSt) (h : orderRun { pend := pend0 } nid tr = .ok st)
+    (d0 : Disk Content MetaRec WalRec LogRec) :
+    cAll ordChk 0 ⟨d0, pend0.filterMap (absP C), []⟩ (absTrace C { pend := pend0 } nid tr) ∧
+    phRun 0 ⟨d0, pend0.filterMap (absP (LogRec := LogRec) C), []⟩ (absTrace C { pend := pend0 } nid tr) = st.phase ∧
+    (crun ⟨d0, pend0.filterMap (absP C), []⟩ (absTrace C { pend := pend0 } nid tr)).vol =
+      st.pend.filterMap (absP C) :=
+  orderRun_ok_ordChk_from C pend0 nid hlt hnd tr st h d0
+
+/-- non-vacuity of T4.7c: started with the pending WAL truncation of the previous sync, an fsync of `wal` covers it. -/
+example :
+    ∃ st, orderRun { pend := [OToy.pendingTrunc] } 1
+      [OToy.ln true "Fsync" "wal" 0 "t12", OToy.ln false "Fsync" "wal" 0 "t12"] = .ok st ∧ st.pend.length = 0 := by
+  refine ⟨_, rfl, ?_⟩
+  decide
 
 /-- T4.7a the same for the recovery performed by `open` (`checkRecoveryOrder`, C03): the abstracted trace passes the
 discipline of the post-switch-over phase — hash-table pages may be rewritten, the WAL is truncated only when no
